@@ -570,6 +570,13 @@ func runFrame(fr *frame) {
 		fr.panic = recover()
 		if EX.panicTrace == "" && EX.spec == 0 {
 			EX.panicTrace = interpStack(fr)
+			EX.panicFn = fr.fn.String()
+			if tp, ok := fr.panic.(targetPanic); ok {
+				func() {
+					defer func() { recover() }()
+					EX.panicText = fmt.Sprint(fr.i.fmtArg(fr, tp.v))
+				}()
+			}
 		}
 		fr.runDefers()
 		fr.block = fr.fn.Recover
